@@ -74,7 +74,12 @@ impl NTTTables {
     pub fn new(coeff_count_power: usize, modulus: &Modulus) -> Result<Self, &str> {
         let coeff_count = (1 << coeff_count_power) as usize;
         let modulus = *modulus;
-        // We defer parameter checking to try_minimal_primitive_root(...)
+        // The minimal primitive root is a function of (degree, modulus) only when the modulus is prime;
+        // for a composite modulus it would depend on the random starting point of the search.
+        if !modulus.is_prime() {
+            return Err("[Invalid argument] Invalid modulus, not a prime.");
+        }
+        // We defer the remaining parameter checking to try_minimal_primitive_root(...)
         let mut root: u64 = 0;
         if !util::try_minimal_primitive_root(2 * coeff_count as u64, &modulus, &mut root) {
             return Err("[Invalid argument] Invalid modulus.");
